@@ -198,6 +198,8 @@ def cluster(ctx):
                     what = ("panic", "the %s panicked: %s" % (e["ev"], e["panic"][:200]))
                 elif e["result"] == "hang":
                     what = ("hang", "the %s did not return within 20 s" % e["ev"])
+                elif e["result"] == "err" and up:
+                    what = ("error-although-a-server-is-reachable", "the %s failed although server(s) %s were up (contacted: %s)" % (e["ev"], sorted(up), e["attempts"]))
                 elif e["result"] == "err" and any(a in up for a in e["attempts"]) and not e.get("unreliable"):
                     what = ("error-although-a-server-answered", "the %s failed although server %s, which it contacted, was up" % (e["ev"], [a for a in e["attempts"] if a in up]))
                 elif e["result"] == "ok" and e["at"] not in up:
